@@ -9,7 +9,7 @@ PLAN = {
     'units': [{'name': 'mem', 'tu': ['src/teakra.cpp', 'src/memory_interface.cpp'], 'roots': TK,
                'must_fire': ['SharedMemory::raw[i] -> VERIF_RAW_READ(raw, i) (bounds = outcome/obligation)', 'SharedMemory::raw[i] = v -> VERIF_RAW_WRITE(raw, i, v)'],
                'require_functions': MI + ['SharedMemory_ReadWord', 'SharedMemory_WriteWord']}],
-    'harness_files': ['harness/c11.c'], 'contract_files': ['contracts/mem.h'], 'spec_files': ['spec/mem_spec.h'],
+    'harness_files': ['harness/c11.c'], 'contract_files': ['contracts/mem_contracts.h'], 'spec_files': ['spec/mem_spec.h'],
     'native': {'bridges': ['replay/bridge_mem.cpp']},
     'obligations': [
         fn('SharedMemory_ReadWord', 'h_ReadWord'), fn('SharedMemory_WriteWord', 'h_WriteWord', 2),
